@@ -207,12 +207,14 @@ inductive BOp where
   | refresh (rq : Req) (ins : List (Bool × Fetch))
   | setURL (i : Nat) (rq : SetReq) (f : Fetch)
   | enqueue
+  | remove (i : Nat)
   | loop
 
 def stepB (s : BState) : BOp → BState
   | .refresh rq ins => refreshB s rq ins
   | .setURL i rq f => (setURLAsync s i rq f).1
   | .enqueue => enqueue s
+  | .remove i => removeAsync s i
   | .loop => drain s
 
 def runB (ops : List BOp) (s : BState) : BState := ops.foldl stepB s
